@@ -108,17 +108,18 @@ def circuit(rng, n_in=(1, 5), n_gates=(1, 10), types=GATES, max_arity=4, consts=
         if multi:
             g = rng.choice(multi)
             c.connect(g, g)
-    if adversarial and rng.random() < 0.5:
+    if adversarial and rng.random() < 0.8:
         # names an encoder could pick for its auxiliary nets around a parity gate: `xor_inv_<g>`, `<g>_xor_inv`,
         # `xor_<u>_<v>`, `<g>_xor_<k>` — as free inputs wired into some gate, so a shared variable changes the function
         par = [g for g in gates if c.type(g) in ("xor", "xnor")]
         if par:
             g = rng.choice(par)
             fi = sorted(c.graph.predecessors(g))
-            cands = [f"xor_inv_{g}", f"{g}_xor_inv", f"xnor_inv_{g}"]
+            cands = [f"xor_inv_{g}", f"xor_inv_{g}", f"{g}_xor_inv", f"xnor_inv_{g}"]
             if len(fi) >= 2:
                 u, v = rng.sample(fi, 2)
-                cands += [f"xor_{u}_{v}", f"xor_{v}_{u}", f"xnor_{u}_{v}", f"{g}_xor_{len(fi)}", f"{g}_xor_3"]
+                cands += [f"xor_{u}_{v}", f"xor_{v}_{u}", f"xor_{u}_{v}", f"xor_{v}_{u}", f"xnor_{u}_{v}", f"{g}_xor_{len(fi)}",
+                          f"{g}_xor_3"]
             nm = rng.choice(cands)
             if nm not in c.graph.nodes:
                 c.add(nm, "input")
